@@ -873,3 +873,38 @@ Theorem C06_gen_knot_removal_kv_Q : forall (U : list Q) (span r : nat),
 Proof. exact knot_removal_kv_tie_Q. Qed.
 Print Assumptions C06_gen_knot_removal_kv_Q.
 
+(* ---- second round (C06): add  Gen.PreludeExt Gen.HelpersB Proofs.GenTieLib2 Proofs.GenTieKnotRemove ---- *)
+From NV Require Import Gen.PreludeExt Gen.HelpersB Proofs.GenTieKnotRemove.
+(* [G] helpers.knot_removal (as repaired), control points = lists of d >= 1 coordinates.  linalg.point_distance (a square root) is the
+   uninterpreted LAST argument `dist` of the generated function; the model tests squared distances against tol2.  For EVERY dist
+   that compares with tol as the squared distance compares with tol2 (the _sqrt instance: dist = sqrt o dist2, tol2 = tol * tol):
+   wf: 1 <= num <= s <= degree, degree + num <= span, span - s + num < len(ctrlpts), len(ctrlpts) + degree + 1 <= len(knotvector) *)
+Theorem C06_gen_knot_removal_R : forall (p n r s num d : nat) (U : list R) (P : list (list R)) (u tol tol2 : R) (dist : list R -> list R -> gres R),
+  length P = n -> n + p + 1 <= length U -> 1 <= num -> num <= s -> s <= p -> p + num <= r -> r - s + num < n -> ptsd d P -> 1 <= d ->
+  (forall a b, length a = d -> length b = d -> exists v, dist a b = GOk v /\ oleb Rops v tol = oleb Rops (dist2 Rops a b) tol2) ->
+  HelpersB.knot_removal Rops (Z.of_nat p) U P u (Z.of_nat num) (Z.of_nat s) (Z.of_nat r) tol dist =
+  GOk (KnotRem.knot_removal Rops d tol2 p U P u num s r).
+Proof. exact knot_removal_tie_R. Qed.
+Print Assumptions C06_gen_knot_removal_R.
+(* NOTE: this instance mentions sqrt; its Print Assumptions shows ClassicalDedekindReals.sig_not_dec in addition to the usual
+   sig_forall_dec + functional_extensionality_dep (all three are standard-library axioms of the real numbers); leave it out if the
+   property file's axiom list must stay at the usual two - C06_gen_knot_removal_R above does not need it *)
+Theorem C06_gen_knot_removal_R_sqrt : forall (p n r s num d : nat) (U : list R) (P : list (list R)) (u tol : R),
+  length P = n -> n + p + 1 <= length U -> 1 <= num -> num <= s -> s <= p -> p + num <= r -> r - s + num < n -> ptsd d P -> 1 <= d ->
+  (0 <= tol)%R ->
+  HelpersB.knot_removal Rops (Z.of_nat p) U P u (Z.of_nat num) (Z.of_nat s) (Z.of_nat r) tol (fun a b => GOk (sqrt (dist2 Rops a b))) =
+  GOk (KnotRem.knot_removal Rops d (tol * tol)%R p U P u num s r).
+Proof. exact knot_removal_tie_R_sqrt. Qed.
+Print Assumptions C06_gen_knot_removal_R_sqrt.
+Theorem C06_gen_knot_removal_Q : forall (p n r s num d : nat) (U : list Q) (P : list (list Q)) (u tol tol2 : Q) (dist : list Q -> list Q -> gres Q),
+  length P = n -> n + p + 1 <= length U -> 1 <= num -> num <= s -> s <= p -> p + num <= r -> r - s + num < n -> ptsd d P -> 1 <= d ->
+  (forall a b, length a = d -> length b = d -> exists v, dist a b = GOk v /\ oleb Qops v tol = oleb Qops (dist2 Qops a b) tol2) ->
+  HelpersB.knot_removal Qops (Z.of_nat p) U P u (Z.of_nat num) (Z.of_nat s) (Z.of_nat r) tol dist =
+  GOk (KnotRem.knot_removal Qops d tol2 p U P u num s r).
+Proof. exact knot_removal_tie_Q. Qed.
+Print Assumptions C06_gen_knot_removal_Q.
+Example C06_gen_nonvacuous :
+  HelpersB.knot_removal Qops 3 [0; 0; 0; 0; 1#2; 1#2; 1; 1; 1; 1]%Q [[0; 0]; [1#2; 1]; [5#4; 3#2]; [11#4; 3#2]; [7#2; 1]; [4; 0]]%Q (1#2)%Q 2 2 5 (1#1000)%Q d2Q
+  = GOk [[0; 0]; [1; 2]; [3; 2]; [4; 0]]%Q.
+Proof. vm_compute; reflexivity. Qed.
+
